@@ -129,7 +129,8 @@ def render_items(r, items, crlf=None, final_newline=None):
     for it in items:
         k = it[0]
         if k == "heading":
-            lines.append(it[1] + r.choice(["", ":", ":", " :", ": "]))
+            q = '"' if r.random() < 0.1 and '"' not in it[1] else ""      # a quoted heading is the heading without the quotes, like a quoted name
+            lines.append(q + it[1] + q + r.choice(["", ":", ":", " :", ": "]))
         elif k == "entry":
             lines.append(render_entry(r, it[1], it[2]))
         elif k == "note":
@@ -273,6 +274,7 @@ def note_text(r):
     """free text of a note; one in five carries characters that mean something to a formatter, a template or a shell (%, braces, backslash, quotes)"""
     t = word(r) + " " + word(r)
     if r.random() < 0.2: t += " " + r.choice(["18%", "100 %", "%d", "%s%s", "50%!", "{{.}}", "\\n", "a%20b", "%!(EXTRA)", "'q'", "$HOME", "%v %"])
+    if r.random() < 0.15: t += " " + r.choice(["18:45", "http://example.com/soup", "a:b:c", "12:30 - 13:00", "x::y"])      # colons inside the text of a note
     return t
 
 def log(r, foods, n_days=None, layout="2006/01/02", envelope=False, notes=0.15, days=None):
